@@ -43,6 +43,33 @@ def accepted_at_equality(cond, pol, fft_shape_atoms):
     return not raises
 
 
+def refused_when_one_axis_short(cond, pol, scratch_shape):
+    """Same guard: is a buffer refused that is too small along one axis and exactly large enough along the other?
+    -> True / False / None (form not recognised)."""
+    a = cond.single_atom() if isinstance(cond, Poly) else None
+    negated = False
+    while a is not None and is_app(a, 'not'):
+        negated = not negated
+        a = a[2][0].single_atom()
+    if a is None or not is_app(a, ('all', 'any', 'min', 'max')):
+        return None
+    quant = 'all' if a[1] in ('all', 'min') else 'any'
+    cmps = cmp_atoms(Poly.atom(a))
+    if len(cmps) != 1:
+        return None
+    op, (lhs, rhs) = cmps[0][1], cmps[0][2]
+    strip = lambda v: nf.vkey(nf.strip_apps(v, ('asarray', 'array', 'cast', 'tuple', 'list')))
+    if strip(lhs) == nf.vkey(scratch_shape):
+        short, equal = True, op == 'le'         # scratch < fft ; scratch == fft
+    elif strip(rhs) == nf.vkey(scratch_shape):
+        short, equal = False, op == 'le'        # fft < scratch is false on the short axis
+    else:
+        return None
+    inner = (short and equal) if quant == 'all' else (short or equal)
+    value = (not inner) if negated else inner
+    return value == bool(pol)
+
+
 class _Transform:
     """the centred FFT of a path: through propagate._fft2, or written in place as fftshift(fft2(ifftshift(x)))"""
     def __init__(self, x, result, pos):
@@ -317,6 +344,12 @@ def run(chk, repo, tier):
         chk.ob('C09-c', 'T-comparison', f.key, 'scratch guard accepts a buffer of exactly fft_shape', acc,
                f'guard `{"" if pol else "not "}{fmt(c)[-120:]}` ' + ('accepts' if acc else 'refuses') +
                ' scratch.shape == fft_shape, which is what scratch_shape() advertises', f.loc(node))
+    if acc != 'done':
+        ref = refused_when_one_axis_short(c, pol, nf.attr(S('scratch'), 'shape'))
+        chk.ob('C09-c', 'T-comparison', f.key, 'scratch guard refuses a buffer that is too small along one axis only', ref,
+               f'guard `{"" if pol else "not "}{fmt(c)[-120:]}` ' +
+               ('refuses' if ref else 'lets through' if ref is False else 'undecided: form not recognised for') +
+               ' a buffer with one axis below fft_shape and the other equal to it', f.loc(node))
     fss, sp, _ = analyse(repo, 'propagate.scratch_shape')
     oks = False
     for p in returns(sp):
@@ -327,6 +360,20 @@ def run(chk, repo, tier):
         oks = oks and wl is not None and ('sym', 'wavelength') in nf.value_atoms(wl)
     if not oks and not any(p.calls('propagate._fft_shape') for p in returns(sp)):
         oks = None          # the grid is not obtained through a helper of that name: how it is computed is not followed here
+    moved = repo.signature_moved('propagate._fft_shape') or repo.signature_moved('propagate._dft_alpha')
+    if moved:
+        oks = None          # the helper takes other things than the rule names: decided end to end below
+    # end to end, whatever the helpers are handed: the advertised shape is round(max(wavelength)*z*oversample/(dx*du)) per axis
+    inl_ = [k_ for k_ in ('propagate._fft_shape', 'propagate._dft_alpha') if repo.has_func(k_)]
+    _, sp2, _ = analyse(repo, 'propagate.scratch_shape', inline=inl_)
+    want_adv = [nf.app('round', nf.app('amax', S('wavelength')) * S('z') * S('oversample') /
+                       (nf.index(S('dx'), C(k_)) * nf.index(S('du'), C(k_)))) for k_ in (0, 1)]
+    r2 = returns(sp2)
+    oke = None
+    if r2 and all(isinstance(nf.strip_apps(p.ret, ('tuple',)), Tup) for p in r2):
+        oke = all(list(nf.strip_apps(p.ret, ('tuple',)).items) == want_adv for p in r2)
+    chk.ob('C09-c', 'N-formula', fss.key, 'advertised shape = round(max(wavelength)*z*oversample/(dx*du)) per axis (helpers inlined)', oke,
+           (f'{fmt(r2[0].ret)[:200]}' if r2 else 'no returning path') if not oke else '', fss.loc())
     chk.ob('C09-c', 'D-flow', fss.key, 'advertised shape is the FFT grid of _fft_shape', oks,
            '' if oks is not None else 'undecided: scratch_shape does not call _fft_shape', fss.loc())
     # the grid has round(wavelength*z*oversample/(dx*du)) samples: it grows with the wavelength, so a band of wavelengths
@@ -449,47 +496,67 @@ def run(chk, repo, tier):
     fc = fs_call.bound
     ok = fc.get('dx') in wf_attr('pixelscale') and fc.get('du') == du and fc.get('z') == nf.attr(WF, 'focal_length') and \
         fc.get('wavelength') in wf_attr('wavelength') and fc.get('oversample') == osf
+    if moved:
+        ok = None
     chk.ob('C09-g', 'D-flow', f.key, '_fft_shape(dx, du, z, wavelength, oversample) gets the like-named quantities', ok,
            ', '.join(f'{k}={fmt(v)}' for k, v in fc.items()), f.loc(fs_call.node))
 
     # ---------------------------------------------------------------- C09-e
     dx, du2 = pair('dx'), pair('du')
-    ff, fp, _ = analyse(repo, 'propagate._fft_shape', config={'dx': dx, 'du': du2}, inline=['propagate._dft_alpha'])
-    rets = returns(fp)
-    if len(rets) != 1 or not isinstance(rets[0].ret, Tup) or len(rets[0].ret) != 2:
-        raise AnalysisError('_fft_shape does not return (shape, wavelength)')
-    shape_t, wl_t = rets[0].ret.items
-    z, wl = S('z'), S('wavelength')
-    want_shape = Tup([nf.app('round', wl * z * osf / (dx.items[k] * du2.items[k])) for k in (0, 1)], 'vec')
-    chk.ob('C09-e', 'N-formula', ff.key, 'fft_shape = round(1/alpha) per axis', shape_t == want_shape,
-           f'{fmt(shape_t)}; expected {fmt(want_shape)}', ff.loc())
-    want_wl = nf.app('min', *[want_shape.items[k] / osf * dx.items[k] * du2.items[k] / z for k in (0, 1)])
-    chk.ob('C09-e', 'N-formula', ff.key, 'reported wavelength = min over axes of fft_shape/oversample*dx*du/z', wl_t == want_wl,
-           f'{fmt(wl_t)[:200]}; expected {fmt(want_wl)[:200]}', ff.loc())
-    ad = {('sym', 'z'): dims.D(m=1), ('sym', 'wavelength'): dims.D(m=1), ('sym', 'oversample'): dims.D(os=1)}
-    for k, (a, u) in enumerate((('xr', 'ur0'), ('xc', 'uc0'))):
-        ad[dx.items[k].single_atom()] = dims.D(m=1, **{a: -1})
-        ad[du2.items[k].single_atom()] = dims.D(m=1, **{u: -1})
-    okd, msg, _ = dims.check(wl_t, ad, want=dims.D(m=1))
-    chk.ob('C09-e', 'U-dims', ff.key, 'reported propagation wavelength is a length', okd is True, msg, ff.loc())
-    # crossed positional arguments z <-> wavelength: excused only by a symmetry proof of the callee
-    for s in bind.sites(repo, repo.func('propagate._fft_shape')):
-        if s.callee.key != 'propagate._dft_alpha':
-            continue
-        mm = bind.b3_mismatches(s)
-        if not mm:
-            chk.ob('C09-e', 'B3-binding', ff.key, 'call of _dft_alpha binds like-named arguments', True, '', s.loc())
-            continue
-        fa_, ap, _ = analyse(repo, 'propagate._dft_alpha', config={'dx': dx, 'du': du2})
-        r = returns(ap)[0].ret
-        names = {x for pr in mm for x in pr}
-        sym_ok = False
-        if names == {'z', 'wavelength'}:
-            m = {('sym', 'z'): S('wavelength'), ('sym', 'wavelength'): S('z')}
-            sym_ok = nf.subst_value(r, m) == r
-        chk.ob('C09-e', 'B3-binding', ff.key, 'crossed arguments of _dft_alpha are interchangeable in the callee', sym_ok,
-               '; '.join(f'`{a}` bound to `{p}`' for p, a in mm) + (': callee proved symmetric in them' if sym_ok else
-                                                                  ': callee is NOT symmetric in them'), s.loc())
+    if moved:
+        # decided through the public entry points instead: the grid the propagation uses (shape=None returns all of it)
+        _, ip_, _ = analyse(repo, 'propagate.propagate_fft', config={'shape': NONE, 'scratch': NONE}, inline=inl_,
+                            types={('sym', 'wavefront'): repo.cls('wavefront.Wavefront')})
+        okm, nm_, detm = True, 0, ''
+        for p in returns(ip_):
+            for e in p.calls('wavefront.Wavefront.empty'):
+                nm_ += 1
+                sh_ = nf.strip_apps(e.bound.get('shape'), ('tuple',))
+                wants_ = [[nf.app('round', wv * nf.attr(WF, 'focal_length') * osf / (nf.index(px, C(k_)) * nf.index(S('pixelscale'), C(k_))))
+                           for k_ in (0, 1)] for wv in wf_attr('wavelength') for px in wf_attr('pixelscale')]
+                if not (isinstance(sh_, Tup) and list(sh_.items) in wants_):
+                    okm, detm = False, f'grid {fmt(sh_)[:200]}'
+        chk.ob('C09-e', 'N-formula', f.key, 'fft_shape = round(1/alpha) per axis (helpers inlined)', (okm and nm_ > 0) if (nm_ or not okm) else None,
+               detm, f.loc())
+        chk.undecided('C09-e', 'N-formula', 'propagate._fft_shape', 'reported wavelength = min over axes of fft_shape/oversample*dx*du/z',
+                      'undecided: the helper no longer takes (dx, du, z, wavelength, oversample)', repo.func('propagate._fft_shape').loc())
+    if not moved:
+        ff, fp, _ = analyse(repo, 'propagate._fft_shape', config={'dx': dx, 'du': du2}, inline=['propagate._dft_alpha'])
+        rets = returns(fp)
+        if len(rets) != 1 or not isinstance(rets[0].ret, Tup) or len(rets[0].ret) != 2:
+            raise AnalysisError('_fft_shape does not return (shape, wavelength)')
+        shape_t, wl_t = rets[0].ret.items
+        z, wl = S('z'), S('wavelength')
+        want_shape = Tup([nf.app('round', wl * z * osf / (dx.items[k] * du2.items[k])) for k in (0, 1)], 'vec')
+        chk.ob('C09-e', 'N-formula', ff.key, 'fft_shape = round(1/alpha) per axis', shape_t == want_shape,
+               f'{fmt(shape_t)}; expected {fmt(want_shape)}', ff.loc())
+        want_wl = nf.app('min', *[want_shape.items[k] / osf * dx.items[k] * du2.items[k] / z for k in (0, 1)])
+        chk.ob('C09-e', 'N-formula', ff.key, 'reported wavelength = min over axes of fft_shape/oversample*dx*du/z', wl_t == want_wl,
+               f'{fmt(wl_t)[:200]}; expected {fmt(want_wl)[:200]}', ff.loc())
+        ad = {('sym', 'z'): dims.D(m=1), ('sym', 'wavelength'): dims.D(m=1), ('sym', 'oversample'): dims.D(os=1)}
+        for k, (a, u) in enumerate((('xr', 'ur0'), ('xc', 'uc0'))):
+            ad[dx.items[k].single_atom()] = dims.D(m=1, **{a: -1})
+            ad[du2.items[k].single_atom()] = dims.D(m=1, **{u: -1})
+        okd, msg, _ = dims.check(wl_t, ad, want=dims.D(m=1))
+        chk.ob('C09-e', 'U-dims', ff.key, 'reported propagation wavelength is a length', okd is True, msg, ff.loc())
+        # crossed positional arguments z <-> wavelength: excused only by a symmetry proof of the callee
+        for s in bind.sites(repo, repo.func('propagate._fft_shape')):
+            if s.callee.key != 'propagate._dft_alpha':
+                continue
+            mm = bind.b3_mismatches(s)
+            if not mm:
+                chk.ob('C09-e', 'B3-binding', ff.key, 'call of _dft_alpha binds like-named arguments', True, '', s.loc())
+                continue
+            fa_, ap, _ = analyse(repo, 'propagate._dft_alpha', config={'dx': dx, 'du': du2})
+            r = returns(ap)[0].ret
+            names = {x for pr in mm for x in pr}
+            sym_ok = False
+            if names == {'z', 'wavelength'}:
+                m = {('sym', 'z'): S('wavelength'), ('sym', 'wavelength'): S('z')}
+                sym_ok = nf.subst_value(r, m) == r
+            chk.ob('C09-e', 'B3-binding', ff.key, 'crossed arguments of _dft_alpha are interchangeable in the callee', sym_ok,
+                   '; '.join(f'`{a}` bound to `{p}`' for p, a in mm) + (': callee proved symmetric in them' if sym_ok else
+                                                                      ': callee is NOT symmetric in them'), s.loc())
 
     # ---------------------------------------------------------------- C09-h
     f2, p2, _ = analyse(repo, 'propagate._fft2')
